@@ -69,7 +69,11 @@ class CircuitGate(Gate):
         return self._circuit.is_differentiable()
 
     def __hash__(self) -> int:
-        hashes: list[int] = [hash(self.name)]
+        # The name embeds str() of the gates, which equal gates need not
+        # share; hash what __eq__ compares instead.
+        hashes: list[int] = [
+            hash((self._circuit.num_qudits, self._circuit.radixes)),
+        ]
         for op in self._circuit:
             hashes.append(hash(op))
 
